@@ -9,7 +9,7 @@ open Serialize
 
 def ctypeOf (s : String) : Option (Option Bytes) :=
   if s == "N" then some none
-  else if s.startsWith "S:" then (hexDecode (s.drop 2).toString).map some
+  else if s.startsWith "S:" || s.startsWith "T:" then (hexDecode (s.drop 2).toString).map some
   else if s.startsWith "K:" then
     let table : List (String × String) := [
       ("Css", "text/css; charset=UTF-8"), ("Csv", "text/csv; charset=UTF-8"), ("EventStream", "text/event-stream"),
